@@ -1,6 +1,8 @@
 //! Correspondence harness: runs the real feoxdb code on generated cases and writes
 //! (a) the case lines for `modelrun` and (b) the implementation's canonical results.
 mod codec;
+mod crash;
+mod f3;
 mod fsm;
 mod img;
 mod mutimg;
@@ -21,6 +23,10 @@ fn main() {
         "img" => img::run(&opts),
         "codec" => codec::run(&opts),
         "seq" => seq::run(&opts),
+        "tracegen" => crash::tracegen(&opts),
+        "crash" => crash::run(&opts),
+        "f3child" => f3::f3child(&opts),
+        "f3" => f3::run(&opts),
         "mutimg" => mutimg::run(&opts),
         "probe" => img::probe(&opts),
         "genimg" => img::genimg(&opts),
